@@ -84,6 +84,17 @@ var c14Writes = []c14Write{
 		return c14Seq(func() error { return x.VUnlink("ix", "p2", "p0", "r", "", true) },
 			func() error { return x.VLink("ix", "p2", "p0", "r", "", 1, nil) })
 	}},
+	{"VLink(evolve)+VUnlink(hard)+VLink(other weight)", nil, func(x *vexec.Exec) error {
+		return c14Seq(func() error { return x.VLink("ix", "p2", "p0", "r", "ri", 3, nil) },
+			func() error { return x.VUnlink("ix", "p2", "p0", "r", "ri", true) },
+			func() error { return x.VLink("ix", "p2", "p0", "r", "ri", 5, map[string]any{"k": "v"}) })
+	}},
+	{"VUnlink+VLink(other weight)+VUnlink+VLink", nil, func(x *vexec.Exec) error {
+		return c14Seq(func() error { return x.VUnlink("ix", "p2", "p0", "r", "", false) },
+			func() error { return x.VLink("ix", "p2", "p0", "r", "", 4, nil) },
+			func() error { return x.VUnlink("ix", "p2", "p0", "r", "", false) },
+			func() error { return x.VLink("ix", "p2", "p0", "r", "", 6, nil) })
+	}},
 	{"VDelete+VAdd", nil, func(x *vexec.Exec) error {
 		return c14Seq(func() error { return x.VDelete("ix", "p1") },
 			func() error { return x.VAdd("ix", "p1", []float32{9, 9}, map[string]any{"seq": 5.0}) })
